@@ -337,7 +337,10 @@ class Run:
             f = unknown[0][0]
             case = f["case"]
             if hasattr(mod, "shrink"):
-                case = self.shrink(case, f, wd)
+                try:
+                    case = self.shrink(case, f, wd)
+                except Exception as e:      # a failing minimiser must never hide the violation
+                    self.notes.append("shrink failed: %r" % (e,))
             content = "# property %s seed %s tier %s\n# oracle failed: %s\n# %s\n%s\n" % (
                 pid, self.seed, self.tier, f.get("oracle"), f.get("detail", ""), case)
             replay_path = write_replay(pid, self.seed, content)
